@@ -165,3 +165,19 @@ C20_CMD_RUNS = [{
     "thorough": {"parts": 16, "deadline": 2700,
                  "bounds": "tcp <=3 tokens of 44 + 4-token lines of 10 commands (direct mode <=3); http <=4 of 26 URI tokens; csv 30 tokens x 3 holes x 11 frames; shapes as quick (strings <=8)"},
 }]
+
+
+# ---- C15, command part: the `answer` command registers what the client described (appended to busmc's C15 in checks.py) ----
+C15_CMD_RUN = {
+    "harness": "c15_answercmd", "sources": ["engines/cmdmc/c15_answercmd.cpp"], "deps": _FIX, "libset": "full",
+    "quick": {"parts": 8, "deadline": 120,
+              "bounds": "all permutations of all subsets of {-m, -s QQ, -d ZZ} x 10 QQ x 11 ZZ values x 13 id strings x 10 data strings "
+                        "x {trailing argument} x {enabled, hex commands off, handler not answering, setAnswer refuses}"},
+    "thorough": {"parts": 16, "deadline": 600, "bounds": "as quick (the grammar is enumerated completely in both tiers)"},
+}
+C15_CMD_RULE = ("command part: every `answer` command line of the grammar [-m] [-s QQ] [-d ZZ] (all orders, all subsets; QQ/ZZ over "
+                "master, slave, broadcast, SYN, ESC, non-hex, three-digit, one-digit and upper-case values) PBSB[ID] (0..7 bytes, odd "
+                "length, non-hex, bytes a9/aa) [DD] (absent, 1..17 bytes, odd, non-hex) [trailing argument] through the real "
+                "RequestImpl + MainLoop::decodeRequest/executeAnswer: the call reaching ProtocolHandler::setAnswer (recorded by "
+                "FakeProtocol) must be exactly the registration the usage text describes (source or any, destination or own "
+                "master/slave address, PB, SB, ID, NN+DD), an invalid line or a disabled command registers nothing, nothing is sent")
